@@ -25,6 +25,9 @@ CLAIMED = {
  "C17": ("constant-table agreement, SSA path table of ValidateFormat against per-format predicates, regexp/syntax anchoring, lock-set over path effects of ValidatePattern",
          "Static necessary conditions only: one format vocabulary across design, runtime and generated constants; each format's verdict is 'accept' exactly when the parser that names it succeeded (ip/ipv4/ipv6 relations by the same regexp with opposite polarity); anchored validator regexes; pattern cache read/written under its lock, keyed by the pattern, verdict tied to the compiled pattern. Does not decide the language of the stdlib parsers.",
          "DESIGN.md §3 C17"),
+ "C19": ("SSA path tables of the middleware closures, interceptors, option constructors, samplers and the response capture",
+         "Static necessary conditions only: downstream receives the derived context on every path; request-ID selection table (trust flag, truncation, fresh-iff-empty, key); mirrored trace extraction/injection tables; sampler consulted only without inbound trace ID; fixed-sampler 0/100 rows; capture records the forwarded status, the returned byte count and the implicit 200; options reach their own fields. Does not decide uniqueness of IDs, sampling statistics or run-time call chains.",
+         "DESIGN.md §3 C19"),
  "C18": ("SSA path tables (decision tables over flag atoms), struct-literal field fidelity",
          "Static necessary conditions only: MergeErrors' per-field merge operators and nil rows on every SSA path, the exhaustive HTTP status / gRPC code / client classification decision tables, and like-named field fidelity of the four wire conversions. Does not prove associativity as a law nor value-level round trips.",
          "DESIGN.md §3 C18"),
